@@ -5,7 +5,9 @@
    An edit of the source that changes what a method does changes the generated term, and these proofs stop checking. *)
 From Coq Require Import List ZArith Bool Arith Lia.
 From SZ Require Import Base.Values Sync.Nodes Base.MiniPy.
+From SZ Require Sync.NodeSem2.
 From SZ Require Import Gen.KN_accumulate Gen.KN_map Gen.KN_filter Gen.KN_starmap Gen.KN_pluck Gen.KN_union Gen.KN_Stream.
+From SZ Require Import Gen.KN_flatten Gen.KN_partition Gen.KN_sliding_window Gen.KN_unique Gen.KN_collect Gen.KN_slice.
 Import ListNotations.
 Close Scope Z_scope.
 Open Scope nat_scope.
@@ -15,7 +17,16 @@ Ltac py := cbn [bind ret raise rd wr wr_get tell lift call emit retain_refs rele
                 existsb is_set app andb negb orb store_id to_option of_option fst snd
                 st_acc st_n st_detached st_keyed st_win st_seen st_ports st_last
                 set_acc set_n set_keyed set_win set_seen set_ports set_last
-                is_no_default accumulate_state accumulate_state_set].
+                is_no_default accumulate_state accumulate_state_set
+                is_none is_none_fn opt_callf truthy_optnat truthy_md truthy_list
+                cc_cache cc_chunks].
+
+Lemma bind_unfold {PS A B} (m : M PS A) (k : A -> M PS B) s :
+  bind m k s = match m s with
+               | Ok a s1 o1 => match k a s1 with Ok b s2 o2 => Ok b s2 (o1 ++ o2) | Err o2 => Err (o1 ++ o2) end
+               | Err o => Err o
+               end.
+Proof. reflexivity. Qed.
 
 (* the literal form follows from the strong one *)
 Lemma weaken r o : r = of_option o -> to_option r = o.
@@ -87,3 +98,154 @@ Qed.
 Theorem bridge_update_accumulate f start rs ws s p x m :
   gen_update_accumulate f rs ws s p x m = update (KAccum f start rs ws) s p x m.
 Proof. apply weaken, (bridge_run_accumulate f start). Qed.
+
+(* ---- flatten ------------------------------------------------------------------------------------------------- *)
+Lemma for_emit_all (body : val -> val -> M nstate val) :
+  (forall a it s, body a it s = Ok a s [IEmit it []]) ->
+  forall t h s, for_ t h body s = Ok (last (h :: t) VNone) s (map (fun y => IEmit y []) (removelast (h :: t))).
+Proof.
+  intros Hb. induction t as [|a t IH]; intros h s.
+  - reflexivity.
+  - cbn [for_]. unfold bind. rewrite Hb, IH.
+    change (removelast (h :: a :: t)) with (h :: removelast (a :: t)).
+    change (last (h :: a :: t) VNone) with (last (a :: t) VNone). reflexivity.
+Qed.
+
+Lemma render_emits (l : list val) (rest : list (item nstate)) :
+  render store_id (map (fun y => IEmit y []) l ++ rest) = map (fun y => AEmit y []) l ++ render store_id rest.
+Proof. induction l as [|a t IH]; cbn; [reflexivity|]. rewrite IH. reflexivity. Qed.
+
+Theorem bridge_run_flatten s p x m : gen_run_flatten s p x m = of_option (update KFlatten s p x m).
+Proof.
+  unfold gen_run_flatten, gen_body_flatten. cbn [update].
+  destruct (items x) as [[|h t]|]; py; try reflexivity.
+  rewrite bind_unfold, for_emit_all by (intros; reflexivity). py.
+  unfold finish. rewrite render_emits. reflexivity.
+Qed.
+Theorem bridge_update_flatten s p x m : gen_update_flatten s p x m = update KFlatten s p x m.
+Proof. apply weaken, bridge_run_flatten. Qed.
+
+(* ---- partition (timeout None) ------------------------------------------------------------------------------------ *)
+Lemma assoc_get_set_same {B} k (b : B) l : assoc_get k (assoc_set k b l) = Some b.
+Proof.
+  induction l as [|[k' b'] t IH]; cbn [assoc_set assoc_get].
+  - rewrite NodeSem2.val_eqb_refl. reflexivity.
+  - destruct (val_eqb k k') eqn:E; cbn [assoc_get]; rewrite E; [reflexivity | exact IH].
+Qed.
+Lemma assoc_set_set {B} k (a b : B) l : assoc_set k b (assoc_set k a l) = assoc_set k b l.
+Proof.
+  induction l as [|[k' b'] t IH]; cbn [assoc_set].
+  - rewrite NodeSem2.val_eqb_refl. reflexivity.
+  - destruct (val_eqb k k') eqn:E; cbn [assoc_set]; rewrite E; [reflexivity | rewrite IH; reflexivity].
+Qed.
+Ltac unfold_partition := unfold partition__buffer_touch, partition__buffer_getitem, partition__buffer_setitem,
+  partition__buffer_item_append, partition__metadata_buffer_touch, partition__metadata_buffer_getitem,
+  partition__metadata_buffer_setitem, partition__metadata_buffer_item_extend, kput, kget.
+Ltac norm_assoc := repeat (progress (rewrite ?assoc_get_set_same, ?assoc_set_set; py)).
+
+Theorem bridge_run_partition n key s p x m :
+  gen_run_partition n key s p x m = of_option (update (KPartition n key) s p x m).
+Proof.
+  unfold gen_run_partition, gen_body_partition. cbn [update].
+  destruct s as [acc cnt det keyed win seen ports last].
+  set (ky := match key with Some kf => kf x | None => VNone end).
+  assert (K : forall (k : val -> M nstate unit) s0,
+            bind (if is_none_fn key then ret VNone else bind (call (opt_callf key x)) (fun v2 => ret v2)) k s0 = k ky s0).
+  { intros k s0. destruct key; py; destruct (k _ s0); reflexivity. }
+  py. rewrite K. unfold_partition. py. norm_assoc.
+  destruct (assoc_get ky keyed) as [[vs ms]|] eqn:E; py;
+    match goal with |- context [length ?l =? n] => destruct (length l =? n) end; norm_assoc; reflexivity.
+Qed.
+Theorem bridge_update_partition n key s p x m :
+  gen_update_partition n key s p x m = update (KPartition n key) s p x m.
+Proof. apply weaken, bridge_run_partition. Qed.
+(* the model treats exactly the classes whose update is a gen.coroutine in the source as coroutines *)
+Theorem bridge_coroutine_partition n key : is_coroutine (KPartition n key) = gen_is_coroutine_partition.
+Proof. reflexivity. Qed.
+
+(* ---- sliding_window (n >= 1: with maxlen 0 the source pops from an empty deque) ---------------------------------- *)
+Lemma last_lastn_snoc {A} n (l : list A) a d : 1 <= n -> last (lastn n (l ++ [a])) d = a.
+Proof.
+  intros H. destruct n as [|k]; [lia|]. rewrite NodeSem2.lastn_snoc. apply last_last.
+Qed.
+Lemma flatten_md_map_snd {A} (l : list (A * md)) : flatten_md (map snd l) = flat_map snd l.
+Proof. unfold flatten_md. induction l as [|a t IH]; cbn; [reflexivity|]. rewrite IH. reflexivity. Qed.
+
+Theorem bridge_run_sliding_window n partial s p x m : 1 <= n ->
+  gen_run_sliding_window n partial s p x m = of_option (update (KSliding n partial) s p x m).
+Proof.
+  intros Hn. unfold gen_run_sliding_window, gen_body_sliding_window. cbn [update].
+  unfold sliding_window__buffer, sliding_window__buffer_append, sliding_window_metadata_buffer,
+    sliding_window_metadata_buffer_append, sliding_window_metadata_buffer_popleft.
+  destruct s as [acc cnt det keyed win seen ports last]. py.
+  rewrite last_lastn_snoc by exact Hn.
+  set (vals := lastn n (seen ++ [x])). set (w' := lastn n (win ++ [(x, m)])).
+  destruct (partial || (length vals =? n)); py; [|reflexivity].
+  rewrite map_length, flatten_md_map_snd.
+  destruct (length w' =? n) eqn:E; py; [|reflexivity].
+  destruct w' as [|[x0 hm] t]; py; [|reflexivity].
+  apply Nat.eqb_eq in E. cbn in E. lia.
+Qed.
+Theorem bridge_update_sliding_window n partial s p x m : 1 <= n ->
+  gen_update_sliding_window n partial s p x m = update (KSliding n partial) s p x m.
+Proof. intros H. apply weaken, bridge_run_sliding_window, H. Qed.
+
+(* ---- unique (history kept as a list) ----------------------------------------------------------------------------- *)
+Theorem bridge_run_unique maxsize key s p x m :
+  gen_run_unique maxsize key s p x m = of_option (update (KUnique maxsize key) s p x m).
+Proof.
+  unfold gen_run_unique, gen_body_unique. cbn [update].
+  unfold unique_seen_contains, unique_seen_remove, unique_seen_insert, unique_seen_delfrom.
+  destruct s as [acc cnt det keyed win seen ports last]. py.
+  destruct (mem_val (key x) seen); py; destruct maxsize as [[|k]|]; py; reflexivity.
+Qed.
+Theorem bridge_update_unique maxsize key s p x m :
+  gen_update_unique maxsize key s p x m = update (KUnique maxsize key) s p x m.
+Proof. apply weaken, bridge_run_unique. Qed.
+
+(* ---- collect and collect.flush ----------------------------------------------------------------------------------- *)
+Lemma combine_fst_snd {A B} (l : list (A * B)) : combine (map fst l) (map snd l) = l.
+Proof. induction l as [|[a b] t IH]; cbn; [reflexivity|]. rewrite IH. reflexivity. Qed.
+Lemma combine_snoc {A B} (l1 : list A) (l2 : list B) a b : length l1 = length l2 ->
+  combine (l1 ++ [a]) (l2 ++ [b]) = combine l1 l2 ++ [(a, b)].
+Proof.
+  revert l2. induction l1 as [|h t IH]; intros [|h2 t2] H; cbn in *; try discriminate; [reflexivity|].
+  rewrite IH by lia. reflexivity.
+Qed.
+
+Theorem bridge_run_collect s p x m : gen_run_collect s p x m = of_option (update KCollect s p x m).
+Proof.
+  unfold gen_run_collect, gen_body_collect. cbn [update].
+  unfold collect_store, collect_load, collect_cache_append, collect_metadata_cache_extend.
+  destruct s as [acc cnt det keyed win seen ports last]. py.
+  assert (L : length (map fst win) = length (map snd win)) by (rewrite !map_length; reflexivity).
+  destruct m as [|i m]; py.
+  - rewrite app_length, L. cbn [length]. replace (length (map snd win) + 1 - length (map snd win)) with 1 by lia.
+    cbn [repeat]. rewrite combine_snoc, combine_fst_snd by exact L. reflexivity.
+  - rewrite !app_length, L. cbn [length]. rewrite Nat.sub_diag. cbn [repeat]. rewrite app_nil_r.
+    rewrite combine_snoc, combine_fst_snd by exact L. reflexivity.
+Qed.
+Theorem bridge_update_collect s p x m : gen_update_collect s p x m = update KCollect s p x m.
+Proof. apply weaken, bridge_run_collect. Qed.
+
+Theorem bridge_flush_collect s : gen_flush_collect s = RSome (flush_actions s).
+Proof.
+  unfold gen_flush_collect, gen_body_collect_flush, flush_actions.
+  unfold collect_store, collect_load, collect_cache, collect_metadata_cache, collect_cache_clear, collect_metadata_cache_clear.
+  destruct s as [acc cnt det keyed win seen ports last]. py.
+  rewrite flatten_md_map_snd. reflexivity.
+Qed.
+
+(* ---- slice (update is only delivered to a node that has not removed itself from its upstream) -------------------- *)
+Theorem bridge_run_slice star stop step s p x m : st_detached s = false ->
+  gen_run_slice star stop step s p x m = of_option (update (KSlice star stop step) s p x m).
+Proof.
+  intros Hd. unfold gen_run_slice, gen_body_slice. cbn [update].
+  unfold slice_state, slice_state_set, slice_detach.
+  destruct s as [acc cnt det keyed win seen ports last]. cbn [st_detached] in Hd. subst det. py.
+  destruct ((star <=? cnt) && ((cnt - star) mod step =? 0)); py; rewrite Nat.add_1_r;
+    (destruct stop as [e|]; cbn [is_none optnat_le negb andb]; [destruct (e <=? S cnt); py; reflexivity | reflexivity]).
+Qed.
+Theorem bridge_update_slice star stop step s p x m : st_detached s = false ->
+  gen_update_slice star stop step s p x m = update (KSlice star stop step) s p x m.
+Proof. intros H. apply weaken, bridge_run_slice, H. Qed.
